@@ -60,7 +60,7 @@ ODD_NAMES = ["Panel [A]", "Transformer [480V]", "feeder*", "line?", "Primary A",
 BIG_POOL = ["PS-%d" % i for i in (10, 9, 2, 1, 11, 3, 20, 4, 12, 5, 100, 6, 7, 8)]
 # station ids are free text too: digits only ("10" < "9" as strings), case twins, blanks, accents,
 # separators, a leading zero, one id a prefix of another
-ODD_ID_POOL = ["10", "9", "2", "A", "a", "st 1", "\u00e9-7", "x/y", "a.b", "#3", "01", "A1"]
+ODD_ID_POOL = ["10", "9", "2", "A", "a", "st 1", "\u00e9-7", "x/y", "a.b", "#3", "01", "A1", ""]
 
 # --------------------------------------------------------------------------- build layer
 
